@@ -509,6 +509,27 @@ def main():
                 for k in gwant:
                     if not same_value(gwant[k], got[k]) or not kind_ok(gwant[k], got[k]):
                         problems.append(("<dataset>", k, repr(gwant[k]), repr(got[k])))
+        # the same dataset opened with a projection in the URL (the DAS still describes the whole dataset): the global attributes,
+        # nested ones included, are all there, and the projected variable carries its own
+        kids_ = list(ds.children())
+        if gwant is not None and kids_ and rng.random() < 0.5:
+            pv = rng.choice(kids_)
+            stats["opened_with_projection"] = stats.get("opened_with_projection", 0) + 1
+            try:
+                cl2 = open_url("http://localhost:8001/?" + pv.name, application=BaseHandler(ds))
+                got2 = dict(cl2.attributes)
+                for k in gwant:
+                    if k not in got2:
+                        problems.append(("<dataset opened with ?%s>" % pv.name, "global attribute missing", k, sorted(got2)))
+                    elif not same_value(gwant[k], got2[k]) or not kind_ok(gwant[k], got2[k]):
+                        problems.append(("<dataset opened with ?%s>" % pv.name, k, repr(gwant[k]), repr(got2[k])))
+                if type(pv).__name__ != "GridType":
+                    gotv = dict(cl2[pv.name].attributes)
+                    for k in pv.attributes:
+                        if k not in gotv or not same_value(pv.attributes[k], gotv[k]):
+                            problems.append((pv.id + " (opened with a projection)", k, repr(pv.attributes[k]), repr(gotv.get(k))))
+            except Exception as e:  # noqa
+                problems.append(("<dataset opened with ?%s>" % pv.name, "cannot be opened", repr(e)[:200], ""))
         if problems:
             direct.append({"law": "attributes served as a DAS are found by the client on the same variables with the same names, nesting, "
                                   "value types and values (six significant digits; NaN / infinities preserved)",
